@@ -47,6 +47,13 @@ func CompareRec(got dns.RR, want *ExpRec) error {
 	if reflect.TypeOf(norm) != reflect.TypeOf(exp) {
 		return fmt.Errorf("record has Go type %T, want %T", norm, exp)
 	}
+	if p, ok := exp.(*dns.PrivateRR); ok {
+		// PrivateRR carries an unexported constructor; the header is checked above, the payload here
+		if q := norm.(*dns.PrivateRR); !reflect.DeepEqual(q.Data, p.Data) {
+			return fmt.Errorf("private RDATA differs: got %v want %v", q.Data, p.Data)
+		}
+		return nil
+	}
 	if !reflect.DeepEqual(norm, exp) {
 		return fmt.Errorf("RDATA differs:\n got  %#v\n want %#v", norm, exp)
 	}
@@ -83,6 +90,11 @@ func SameRecords(a, b []dns.RR) error {
 		y, err := Normalize(b[i])
 		if err != nil {
 			return fmt.Errorf("record %d of the second rendering: %v", i, err)
+		}
+		if px, ok := x.(*dns.PrivateRR); ok {
+			if py, ok := y.(*dns.PrivateRR); ok && px.Hdr == py.Hdr && reflect.DeepEqual(px.Data, py.Data) {
+				continue
+			}
 		}
 		if !reflect.DeepEqual(x, y) {
 			return fmt.Errorf("record %d differs between renderings:\n %#v\n %#v", i, x, y)
